@@ -669,6 +669,8 @@ class Server(base_server.BaseServer):
         """Handle Engine.IO disconnect event."""
         for n in list(self.manager.get_namespaces()).copy():
             self._handle_disconnect(eio_sid, n, reason)
+        if eio_sid in self._binary_packet:
+            del self._binary_packet[eio_sid]
         if eio_sid in self.environ:
             del self.environ[eio_sid]
 
